@@ -23,6 +23,7 @@ EX, _ = loader.load_cut("onnxscript.rewriter.rules.common._remove_expand_before_
 IU, _ = loader.load_cut("onnxscript.rewriter._ir_utils")
 MR, _ = loader.load_cut("onnxscript.rewriter.rules.common._materialize_reshape_shape")
 PC, _ = loader.load_cut("onnxscript.rewriter.rules.common._fuse_pad_into_conv")
+BM, _ = loader.load_cut("onnxscript.rewriter.rules.common._broadcast_to_matmul")
 
 
 # ----------------------------------------------------------------------------------------------------------- stubs
@@ -56,6 +57,7 @@ class FakeNp:
 class FakeConst:
     def __init__(self, l, ndim=1):
         self._np = FakeNp(l, ndim)
+        self.shape = (len(l),) if ndim else ()
 
     def numpy(self):
         return self._np
@@ -505,6 +507,39 @@ def _pickc(v, lo, hi):
     raise AssertionError("out of range")
 
 
+# ------------------------------------------------------------------------- Reshape / MatMul / Reshape -> MatMul
+def _matmul_shape(a, b):
+    """NumPy / ONNX MatMul result shape; None = invalid"""
+    if len(a) == 0 or len(b) == 0:
+        return None
+    a1, b1 = len(a) == 1, len(b) == 1
+    aa = [1] + a if a1 else a
+    bb = b + [1] if b1 else b
+    if aa[-1] != bb[-2]:
+        return None
+    batch = _bshape(aa[:-2], bb[:-2])
+    if batch is None:
+        return None
+    out = batch + [aa[-2], bb[-1]]
+    if b1:
+        out = out[:-1]
+    if a1:
+        out = out[:-2] + out[-1:] if not b1 else out[:-1]
+    return out
+
+
+def matmul_reshape(ra: int, rb: int, rc: int, a0: int, a1: int, a2: int, b0: int, b1: int, b2: int, c0: int, c1: int, c2: int, c3: int) -> bool:
+    """check_if_not_need_reshape accepts => MatMul(a, b) is valid and has exactly the shape the final Reshape asks for (static dims)
+    vp-pre: 1 <= ra <= 3 and 1 <= rb <= 3 and 0 <= rc <= 4
+    vp-pre: a0 >= 0 and a1 >= 0 and a2 >= 0 and b0 >= 0 and b1 >= 0 and b2 >= 0
+    """
+    a, b, c = [a0, a1, a2][:ra], [b0, b1, b2][:rb], [c0, c1, c2, c3][:rc]
+    va, vb = FakeValue("a", ir.Shape(a)), FakeValue("b", ir.Shape(b))
+    if not BM.check_if_not_need_reshape(None, va, vb, FakeValue("c", const=c)):
+        return True
+    return _matmul_shape(a, b) == c
+
+
 OBLIGATIONS = [
     {"id": "c05.lemma.transpose2", "func": "transpose2", "timeout": 60,
      "functions": ["onnxscript.rewriter.rules.common._basic_rules:TransposeTranspose.check", "onnxscript.rewriter.rules.common._basic_rules:TransposeTranspose.rewrite"],
@@ -518,6 +553,15 @@ OBLIGATIONS = [
     {"id": "c05.lemma.unsqueeze_unsqueeze", "func": "unsqueeze_unsqueeze", "timeout": 120,
      "functions": ["onnxscript.rewriter.rules.common._basic_rules:UnsqueezeUnsqueeze.check", "onnxscript.rewriter.rules.common._basic_rules:UnsqueezeUnsqueeze.rewrite"],
      "bounds": "axes: all integers; rank of x 0..4", "stubs": ["ir_utils.get_singleton_value -> symbolic int", "ir.tensor -> list", "RecOp"]},
+    *[{"id": f"c05.lemma.matmul_reshape.a{x}b{y}c{z}", "func": "matmul_reshape",
+       "extra_pres": [f"ra == {x} and rb == {y} and rc == {z}"] + ([] if (x, y) == (1, 1) else ["a0 <= 3 and a1 <= 3 and a2 <= 3 and b0 <= 3 and b1 <= 3 and b2 <= 3"]),
+       "timeout": 300, "timeout_thorough": 1500,
+       "tiers": ("quick", "thorough") if (x, y) == (1, 1) or (x, y, z) == (2, 2, 2) else ("thorough",),
+       "functions": ["onnxscript.rewriter.rules.common._broadcast_to_matmul:check_if_not_need_reshape"],
+       "bounds": (f"rank(a)={x}, rank(b)={y}, rank of the final shape {z}; dims of the final shape unbounded integers; dims of a and b " +
+                  ("unbounded >= 0" if (x, y) == (1, 1) else "in 0..3 (the rule tests membership in a set of dims, which makes CrossHair enumerate values)") +
+                  "; static shapes only: the rule refuses symbolic ones"),
+       "stubs": ["FakeValue.const_value list-backed"]} for x in (1, 2, 3) for y in (1, 2, 3) for z in range(0, 5) if z in (max(x, y) - 1, max(x, y), max(x, y) + 1) or (x, y) == (1, 1)],
     {"id": "c05.lemma.fill_pads_with_axes", "func": "fill_pads", "timeout": 200,
      "functions": ["onnxscript.rewriter.rules.common._fuse_pad_into_conv:fill_pads_with_axes"],
      "bounds": "rank 1..3, 0..rank distinct axes, pad amounts unbounded integers", "stubs": []},
